@@ -46,7 +46,7 @@ var c17Pool = []string{
 	"[a]", "$nil", "{|x| }", "4611686018427387904",
 	// --- end of the small pool ---
 	"(num NaN)", "d/f", "(num 9223372036854775808)", "1e400", "(num +Inf)", "(num -Inf)", "(num -0.0)", "(num 1/3)",
-	"[]", "[&]", "[&a=b]", "$true", "{ }", "$nop~", "$fl", "1_000",
+	"[]", "[&]", "[&a=b]", "$true", "{ }", "$nop~", "$fl", "1_000", "9223372036854775807",
 }
 
 const c17SmallPoolN = 10
@@ -56,7 +56,7 @@ var c17QuickPool2Drop = map[string]bool{"(num -Inf)": true, "[&]": true, "{ }": 
 
 // Extra values of the thorough tier (arity <= 2).
 var c17PoolThorough = []string{
-	`"a\x00b"`, "9223372036854775807", "-9223372036854775808", "(num 1e308)", "é", "[a b c]", "(num 0x10000000000000000/3)", "0x7fffffff",
+	`"a\x00b"`, "-9223372036854775808", "(num 1e308)", "é", "[a b c]", "(num 0x10000000000000000/3)", "0x7fffffff",
 }
 
 // Positional stand-ins used while one option at a time is set to a pool value.
